@@ -39,6 +39,20 @@ SPECIAL = [0.0, -0.0, 360.0, -360.0, 720.0, 1080.0, 359.99999999999994, 360.0000
            90.0, 180.0, 270.0, -90.0, 45.0, 1e6, -1e6, 123456789.123, 1e15, -1e15, 0.1, -0.1, 1 / 3, 359.9999995, -0.0000004]
 
 
+# the far ends of the float range: finite, but where x % 360 and floor(x / 360) * 360 stop agreeing
+EXTREME = [1e17, -1e17, 1e18, -1e18, 6.02214076e23, -6.02214076e23, 2.0 ** 63, -2.0 ** 63, 1e100, -1e100, 1e300, -1e300,
+           1.7976931348623157e308, -1.7976931348623157e308, 5e-324, -5e-324, 8.9e-322, -8.9e-322, 2.2250738585072014e-308,
+           -2.2250738585072014e-308, 1e-300, -1e-300, 9007199254740993.0, -9007199254740993.0]
+
+
+def ang_num(rng) -> float:
+    """A number for an angle component: now and then from the far ends of the float range."""
+    if rng.random() < 0.12:
+        v = rng.choice(EXTREME)
+        return v * rng.choice((1.0, 1.0, 3.0, 0.7)) if abs(v) < 1e300 else v
+    return num(rng)
+
+
 def num(rng) -> float:
     r = rng.random()
     if r < 0.45:
@@ -404,13 +418,13 @@ class History:
         cls = rng.choice((sm.Angle, sm.FrozenAngle))
         form = rng.randrange(6)
         if form == 0:
-            o = cls(num(rng), num(rng), num(rng))
+            o = cls(ang_num(rng), ang_num(rng), ang_num(rng))
         elif form == 1:
-            o = cls([num(rng), num(rng), num(rng)][:rng.randint(0, 3)])
+            o = cls([ang_num(rng), num(rng), ang_num(rng)][:rng.randint(0, 3)])
         elif form == 2:
             o = cls(self.pick(sm.AngleBase))
         elif form == 3:
-            o = cls(pitch=num(rng), roll=num(rng))
+            o = cls(pitch=ang_num(rng), roll=ang_num(rng))
         elif form == 4:
             o = cls(self.pick(sm.VecBase))
         else:
@@ -483,7 +497,9 @@ class History:
         a = self.pick(sm.Angle)
         if not isinstance(a, sm.Angle):
             return
-        val = num(rng)
+        val = ang_num(rng)
+        if abs(val) > 1e16 or 0 < abs(val) < 1e-290:
+            self.run.count('angle_components_set_from_the_far_ends_of_the_float_range')
         if rng.random() < 0.5:
             setattr(a, rng.choice(('pitch', 'yaw', 'roll')), val)
         else:
@@ -905,4 +921,4 @@ def replay(run, data) -> None:
 
 
 # (kept at the end of the file so that the text above stays the description the check was first built to)
-RULE += ' ' + 'Later additions: library ==, != (both directions) and hash() on every copy / freeze / thaw; text forms also through format() and f-strings and for magnitudes above 1e12. Calls that hand out several vectors at once (bbox corners for 1-4 points in every delivery form, iter_grid, iter_line, divmod) give results that are new objects, independent of one another and of the arguments, with the values of a direct min/max/divmod model.'
+RULE += ' ' + 'Later additions: library ==, != (both directions) and hash() on every copy / freeze / thaw; text forms also through format() and f-strings and for magnitudes above 1e12. Calls that hand out several vectors at once (bbox corners for 1-4 points in every delivery form, iter_grid, iter_line, divmod) give results that are new objects, independent of one another and of the arguments, with the values of a direct min/max/divmod model. Angle components are also constructed and assigned (attribute and item form) from the far ends of the float range: 1e17 .. 1.8e308 and the denormals.'
